@@ -16,14 +16,15 @@
 //!                             (mask: four characters, '1' = element is compared),
 //!          "observed": path|null       stdout of kp,
 //!          "expected_out": path|null   where to write what the library computes,
-//!          "compare": "numbers" | "count" | "none"}
+//!          "compare": "numbers" | "count" | "none", "slack": 0.5}
 //! result: {"id":.., "op_ok":bool, "n_expected":n, "n_observed":n, "count_ok":bool,
 //!          "n_mismatch":n, "mismatches":[first five], "evaluations":n}
 //!
 //! Token comparison: the text must be the value with exactly d decimals; a
 //! token that differs from Rust's own rounding is still accepted if it is a
-//! d-decimal number within half a unit of the last place (ties may be broken
-//! either way), "-0.00" and "0.00" are the same number, NaN is "NaN" in any
+//! d-decimal number within `slack` (default half a) unit of the last place
+//! (ties may be broken either way; the job raises `slack` for operations that
+//! are not exact in binary64, kp and this harness being two builds of the library), "-0.00" and "0.00" are the same number, NaN is "NaN" in any
 //! letter case.  In the roundtrip modes only magnitudes are compared (the
 //! documentation does not fix the sign convention of a residual).
 use geodesy::authoring::*;
@@ -60,7 +61,7 @@ fn well_formed(tok: &str, d: usize) -> bool {
     }
 }
 
-fn token_ok(v: f64, d: usize, obs: &str, magnitude: bool) -> bool {
+fn token_ok(v: f64, d: usize, obs: &str, magnitude: bool, slack: f64) -> bool {
     let e = format!("{:.*}", d, v);
     if canon(&e, magnitude) == canon(obs, magnitude) {
         return true;
@@ -75,8 +76,8 @@ fn token_ok(v: f64, d: usize, obs: &str, magnitude: bool) -> bool {
         return false;
     };
     let (a, b) = if magnitude { (o.abs(), v.abs()) } else { (o, v) };
-    let half = 0.5 * 10f64.powi(-(d as i32));
-    (a - b).abs() <= half * (1.0 + 1e-9) + 4.0 * f64::EPSILON * b.abs()
+    let unit = 10f64.powi(-(d as i32));
+    (a - b).abs() <= slack * unit * (1.0 + 1e-9) + 4.0 * f64::EPSILON * b.abs()
 }
 
 struct Tuples {
@@ -160,6 +161,9 @@ fn run_job(job: &Value) -> Value {
 
     let d = job["d"].as_u64().map(|x| x as usize);
     let dim = job["D"].as_u64().map(|x| x as usize);
+    // units of the last place a token may be away from the library's value: 0.5 = correctly
+    // rounded; more for operations whose last bits may differ between two builds of the library
+    let slack = job["slack"].as_f64().unwrap_or(0.5);
 
     // "prints what the library computes, rounded and cut"
     if let (Some(path), Some(d), Some(dim)) = (job["expected_out"].as_str(), d, dim) {
@@ -193,7 +197,7 @@ fn run_job(job: &Value) -> Value {
             let mut ok = toks.len() == dim;
             if ok {
                 for e in 0..dim {
-                    if tuples.mask[k][e] && !token_ok(data[k][e], d, toks[e], roundtrip) {
+                    if tuples.mask[k][e] && !token_ok(data[k][e], d, toks[e], roundtrip, slack) {
                         ok = false;
                         break;
                     }
